@@ -570,6 +570,39 @@ func init() {
 							c.Fail(key, "centroid of a collection of lines is not the length-weighted mean", map[string]interface{}{"collection": sv(coll), "got": sv(cc), "want": sv(want)})
 						}
 					}
+					// a geometry without any vertex is infinitely far away and has no nearest member
+					for name, g := range map[string]orb.Geometry{
+						"empty multi line string": orb.MultiLineString{}, "multi line string of empty lines": orb.MultiLineString{{}, {}}, "empty multi polygon": orb.MultiPolygon{},
+						"multi polygon of an empty polygon": orb.MultiPolygon{{}}, "empty multi point": orb.MultiPoint{}, "empty line string": orb.LineString{}, "empty polygon": orb.Polygon{},
+						"collection of empty members": orb.Collection{orb.MultiPolygon{}, orb.LineString{}}, "empty collection": orb.Collection{},
+					} {
+						gd, gi := planar.DistanceFromWithIndex(g, dq)
+						c.Eval()
+						if !math.IsInf(gd, 1) || gi != -1 || !math.IsInf(planar.DistanceFrom(g, dq), 1) {
+							c.Fail("", "DistanceFromWithIndex of a geometry without vertices is not (+Inf, -1) ("+name+")", map[string]interface{}{"value": sv(g), "distance": gd, "index": gi})
+						}
+					}
+					// empty lines among the members of a multi line string have no position: they do not move its centroid
+					{
+						a, bq := orb.Point{float64(r.Range(-50, 50)), float64(r.Range(-50, 50))}, orb.Point{float64(r.Range(-50, 50)), float64(r.Range(-50, 50))}
+						for name, tc := range map[string]struct {
+							g    orb.MultiLineString
+							want orb.Point
+						}{
+							"an empty line and a one-point line":         {orb.MultiLineString{{}, {a}}, a},
+							"a one-point line between two empty lines":   {orb.MultiLineString{{}, {a, a}, nil}, a},
+							"empty lines around a line of positive length": {orb.MultiLineString{{}, {a, bq}, {}}, orb.Point{(a[0] + bq[0]) / 2, (a[1] + bq[1]) / 2}},
+						} {
+							if a == bq {
+								continue
+							}
+							gc, _ := planar.CentroidArea(tc.g)
+							c.Eval()
+							if !(math.Abs(gc[0]-tc.want[0]) <= 1e-9 && math.Abs(gc[1]-tc.want[1]) <= 1e-9) {
+								c.Fail("", "an empty line among the members moves the centroid of a multi line string ("+name+")", map[string]interface{}{"lines": sv(tc.g), "got": sv(gc), "want": sv(tc.want)})
+							}
+						}
+					}
 					// lines whose vertices all coincide are still there for DistanceFrom: at the distance of their point
 					{
 						dp := orb.Point{float64(r.Range(-50, 50)), float64(r.Range(-50, 50))}
